@@ -231,6 +231,8 @@ pub struct LogicalOpts {
     /// (BasicCreator) the output files of the extra content packs are named relative to the
     /// process's working directory (which the caller has set to an ancestor of the destination)
     pub extra_pack_paths_relative_to_cwd: bool,
+    /// (BasicCreator) the extra content packs are written into a sub-directory with a 215-byte name
+    pub extra_packs_in_long_subdir: bool,
     /// (loose / concat) a second content pack with the id of pack 1 is listed after the others: an
     /// "alternative" (the format allows several packs per id; the one declared first wins)
     pub alternative_of_pack1: bool,
@@ -1181,6 +1183,11 @@ fn build_inner(
                 }
                 extra_slot.insert(p, extras.len());
                 let mut path = dir.join(format!("{name}.x{p}.jbkc"));
+                if logical.opts.extra_packs_in_long_subdir {
+                    let sub = dir.join("s".repeat(215));
+                    std::fs::create_dir_all(&sub)?;
+                    path = sub.join(format!("{name}.x{p}.jbkc"));
+                }
                 if logical.opts.extra_pack_paths_relative_to_cwd {
                     let cwd = std::env::current_dir()?;
                     path = path.strip_prefix(&cwd).map_err(|_| "the working directory is not an ancestor of the destination")?.to_path_buf();
